@@ -655,6 +655,16 @@ class Models:
                     return ok(st, VStr(so.repl_ud(recv.t)))
                 if (a, b) == ('-', '_'):
                     return ok(st, VStr(so.repl_du(recv.t)))
+            if name in ('isidentifier', 'isdigit', 'isalpha', 'isalnum',
+                        'isascii', 'isspace', 'islower', 'isupper',
+                        'isnumeric', 'isdecimal', 'isprintable') and not args:
+                # str predicates: uninterpreted functions of the string
+                f = z3.Function('sp_str_' + name, so.S, so.B)
+                return ok(st, VBool(f(recv.t)))
+            if name in ('strip', 'lstrip', 'rstrip', 'upper', 'title',
+                        'capitalize', 'casefold') and not args:
+                f = z3.Function('sp_str_' + name, so.S, so.S)
+                return ok(st, VStr(f(recv.t)))
             if name == 'join' and args and isinstance(
                     args[0], (VTuple, VListC)) and all(
                     isinstance(x, VStr) for x in args[0].items):
